@@ -309,8 +309,15 @@ class CookieJar(AbstractCookieJar):
 
     def _delete_cookies(self, to_del: list[tuple[str, str, str]]) -> None:
         for domain, path, name in to_del:
-            self._host_only_cookies.discard((domain, name))
             self._cookies[(domain, path)].pop(name, None)
+            # The host-only flag is shared by the cookies of that name under
+            # the domain, whatever their path: keep it while one of them remains.
+            if not any(
+                name in cookies
+                for (c_domain, _), cookies in self._cookies.items()
+                if c_domain == domain
+            ):
+                self._host_only_cookies.discard((domain, name))
             self._morsel_cache[(domain, path)].pop(name, None)
             self._expirations.pop((domain, path, name), None)
 
